@@ -18,6 +18,17 @@ LINE = re.compile(r'^(\d+)\s+(\d+)\s+(?:([A-Za-z_][A-Za-z0-9_]*)\+(\d+)\s+)?([A-
 MN = dict(asmlib.OPS); MN.update({'OPR': 13, 'PFIX': 14, 'NFIX': 15})
 
 
+NUM = re.compile(r'0x[0-9a-fA-F]+|\d+')
+
+
+def explanation(line, m):
+    """the numbers after the leading columns of a trace line, as signed words"""
+    out = []
+    for t in NUM.findall(line[m.end():]):
+        out.append(xlib.w32(int(t, 16) if t.lower().startswith('0x') else int(t)))
+    return out
+
+
 def reroute(x):
     """send every write to standard output to file stream 512 instead"""
     if isinstance(x, dict):
@@ -215,7 +226,7 @@ def run(tier, replay=None):
             for line in r['trace'].split('\n'):
                 m = LINE.match(line)
                 if m and m.group(5) in MN:
-                    tl.append([int(m.group(1)), int(m.group(2)), m.group(3) or "", int(m.group(4) or 0), MN[m.group(5)], int(m.group(6))])
+                    tl.append([int(m.group(1)), int(m.group(2)), m.group(3) or "", int(m.group(4) or 0), MN[m.group(5)], int(m.group(6)), explanation(line, m)])
             img = r['img']
             words = []
             for i in range(0, len(img) - 3, 4):
@@ -228,10 +239,19 @@ def run(tier, replay=None):
         arecs, akeep = asm_family(chk, d, rng, tier)
         recs += arecs; keep += akeep
         can = json.loads(json.dumps(next(r for r in recs if len(r['symtab']) > 2))); can['id'] = 'canary'; can['symtab'][1][1] += 1
-        verd = xlib.validate(recs + [can], d, "c15v", module="TraceV", cfg="TraceV.cfg")
+        can2 = json.loads(json.dumps(next(r for r in recs if r['kind'] == 'x' and len(r['lines']) > 12 and any(len(l) > 6 and l[6] for l in r['lines'][:12]))))
+        can2['id'] = 'canary2'
+        for l in can2['lines'][:12]:
+            if len(l) > 6 and l[6]:
+                l[6][-1] ^= 1; break
+        verd = xlib.validate(recs + [can2, can], d, "c15v", module="TraceV", cfg="TraceV.cfg")
         if verd[-1]['v'] != 'bad':
             raise vlib.MachineryError("canary accepted: binding is not live")
+        if verd[-2].get('drift', 0) != 1:
+            raise vlib.MachineryError("a corrupted trace explanation was not counted (drift %s)" % verd[-2].get('drift'))
+        verd = verd[:-2] + verd[-1:]
         cnt = collections.Counter(v['v'] for v in verd[:-1])
+        chk.set("DRIFT_trace_lines_whose_explanation_differs_from_HexISA", sum(v.get('drift', 0) for v in verd[:-1]))
         ok = 0; nlines = 0; nent = 0
         for c, v in zip(keep, verd[:-1]):
             if v['v'] == 'ok':
